@@ -245,6 +245,11 @@ def splitOn (sep : Char) : List Char → List (List Char)
       | w :: ws => (c :: w) :: ws
       | [] => [[c]]
 
+/-- `str.find(x)`: position of the first `x` -/
+def findChar (x : Char) : List Char → Option Nat
+  | [] => none
+  | c :: cs => if c = x then some 0 else (findChar x cs).map (· + 1)
+
 def isSpace (c : Char) : Bool := c = ' ' || c = '\t' || c = '\r' || c = '\n'
 
 def dropWhileEnd (p : Char → Bool) (l : List Char) : List Char := (l.reverse.dropWhile p).reverse
@@ -278,7 +283,7 @@ def parseRegister (S : Syms) (l : List Char) : Option Reg :=
   match l with
   | [] => none
   | c :: r =>
-    match S.banks.idxOf? c with
+    match findChar c S.banks with
     | some b =>
       match parseConst r with
       | some v => some ⟨b, v⟩
@@ -312,7 +317,7 @@ def parseTopVal (S : Syms) (l : List Char) : Except TErr POp :=
 
 /-- `parse_address` -/
 def parseAddress (S : Syms) (w : List Char) : Except TErr POp :=
-  let start := w.idxOf? S.idxOpen
+  let start := findChar S.idxOpen w
   let split : Except TErr (List Char × List Char) :=
     match start with
     | none => .ok (w, [])
@@ -373,12 +378,17 @@ def parseLine (S : Syms) (generic : List String) (line : List Char) : Except TEr
         | .error e => .error e
       else .error .value                    -- `string_to_instruction`: Unknown instruction
 
+/-- `pat in l` for strings -/
+def containsSub (pat : List Char) : List Char → Bool
+  | [] => pat.isEmpty
+  | c :: cs => pat.isPrefixOf (c :: cs) || containsSub pat cs
+
 def parseLines (S : Syms) (generic : List String) : List (List Char) → Except TErr (List PCmd)
   | [] => .ok []
   | l :: ls =>
     let l' := strip l
     if l'.isEmpty then parseLines S generic ls
-    else if l'.head? == some S.preambleStart || (String.ofList l').splitOn S.comment != [String.ofList l'] then
+    else if l'.head? == some S.preambleStart || containsSub S.comment.toList l' then
       .error .unsupported
     else
       match parseLine S generic l' with
@@ -443,5 +453,39 @@ def toksOf (T : Table) (i : Instr) : PCmd :=
   match rowOf T i.cls with
   | some row => printToks row.mn i.ops
   | none => ⟨"", []⟩
+
+/-- characters of printed integers and registers -/
+def opChar (S : Syms) (c : Char) : Bool := isDigit c || c = '-' || S.banks.contains c
+
+/-- every character a printed line can contain -/
+def lineChar (S : Syms) (c : Char) : Bool :=
+  mnCharOk c || opChar S c || c = ' ' || c = S.addrStart || c = S.idxOpen || c = S.idxClose
+    || c = S.sliceDelim
+
+/-- what the character-level round trip needs from the symbols (generated obligation):
+the bank letters are found by position, are no digits / minus / spaces; the operand symbols
+are no operand characters, no spaces, and distinct where the parser relies on it; the rest
+of the syntax (arguments, macros, comments, preamble, label definitions) cannot be
+mistaken for anything the printer writes -/
+def symsOk (S : Syms) : Bool :=
+  decide (4 ≤ S.banks.length)
+  && (List.range S.banks.length).all (fun b => findChar (bankChar S b) S.banks == some b)
+  && S.banks.all (fun c => !isDigit c && c != '-' && !isSpace c)
+  && [S.addrStart, S.idxOpen, S.idxClose, S.sliceDelim].all (fun c => !opChar S c && !isSpace c)
+  && S.idxOpen != S.addrStart
+  && S.sliceDelim != S.idxOpen && S.sliceDelim != S.idxClose
+  && !lineChar S S.argOpen && !lineChar S S.macroStart
+  && (match S.comment.toList with
+      | c :: _ => !lineChar S c
+      | [] => false)
+  && !mnCharOk S.preambleStart
+  && !(isDigit S.branchEnd || S.branchEnd == S.idxClose || mnCharOk S.branchEnd)
+
+/-- registers of an operand use existing bank letters -/
+def banksOk (n : Nat) : Operand → Bool
+  | .reg r => decide (r.bank < n)
+  | .entry _ i => decide (i.bank < n)
+  | .slice _ s e => decide (s.bank < n) && decide (e.bank < n)
+  | _ => true
 
 end NQ.Text
